@@ -3,7 +3,7 @@
 From PowHsm Require Import Model.LedgerProtocol Proofs.C13.
 From PowHsm Require Import Gen.Src Proofs.SrcEquivLedger.
 From PowHsm Require Import Gen.SrcM Proofs.SrcEquivDongleM.
-From PowHsm Require Import Proofs.SrcEquivProtoM Proofs.SrcEquivStateM Proofs.SrcEquivHeartbeatM.
+From PowHsm Require Import Proofs.SrcEquivProtoM Proofs.SrcEquivStateM Proofs.SrcEquivHeartbeatM Proofs.SrcEquivParamsProtoM.
 Open Scope N_scope.
 
 (* getPubKey: whatever key bytes the device returns for the requested path are the reply's
@@ -162,3 +162,13 @@ Theorem C13_source_ui_heartbeat_handler_is_model :
   srcm_HSM2ProtocolLedger___ui_heartbeat init self (of_obj req) w =
   mres rtuple_pv (op_ui_heartbeat kind req w).
 Proof. exact srcm_ui_heartbeat_handler_ok. Qed.
+
+(* TIE BY TRANSLATION (device monad): _get_blockchain_parameters of ledger/protocol.py, as regenerated from the Python
+   source text, runs on every world as the model's handler: checkpoint, minimum difficulty and the network's name (the
+   enum member's name in lower case, table read from the source's enum) are those the device's 69 bytes hold *)
+Theorem C13_source_parameters_handler_is_model :
+  forall (kind : dongle_kind) (init : pm pv) (self request : pv) (req : obj) (w : world),
+  init_ok kind init ->
+  srcm_HSM2ProtocolLedger___get_blockchain_parameters init self request w =
+  mres rtuple_pv (op_parameters kind req w).
+Proof. exact srcm_parameters_handler_ok. Qed.
